@@ -9,9 +9,9 @@
      C12  Red Hat notation                                (construct + fromrh events)
      C15  temporal / environmental sub-vectors            (construct events, v2 / v3)
    Verdicts are total: "ok" or the name of the first failing clause.                        *)
-EXTENDS Api, Json, IOUtils, FiniteSets
+EXTENDS Api, Json, IOUtils, FiniteSets, TraceData
 CONSTANT Prop
-T == JsonDeserialize(IOEnv.TRACE_FILE)
+T == TraceData
 VARIABLES i, ph
 \* state <<0,1>> carries the whole-trace clauses (C07: one fixed metric order across all outputs)
 Init == (i \in 1..Len(T) /\ ph = 0) \/ (i = 0 /\ ph = 0)
@@ -90,6 +90,13 @@ C08(e) ==
            ELSE IF ~OfficialPattern(pv, rhs[2]) THEN "rh-vector-violates-official-pattern"
            ELSE "ok"
 
+\* the string returned by the interactive builder (events [op |-> "builder", ver, minor, value])
+C08B(e) == IF Classify(e.ver, e.value) # "ok" THEN "builder-return-rejected-by-grammar"
+           ELSE IF MinorOf(e.ver, e.value) # e.minor THEN "builder-return-wrong-minor-version"
+           ELSE IF ~OfficialPattern(PatternVersion(e.ver, e.minor), e.value) THEN "builder-return-violates-official-pattern"
+           ELSE IF ~e.lib_accepts THEN "builder-return-rejected-by-library"
+           ELSE "ok"
+
 \* ---- C12 -----------------------------------------------------------------------------------
 C12(e) ==
    IF e.op = "construct" THEN
@@ -129,7 +136,7 @@ C15(e) ==
 
 Verdict(e) == CASE Prop = "C04" -> C04(e)
                 [] Prop = "C07" -> (IF e.op = "pool" THEN C07Pool(e) ELSE C07(e))
-                [] Prop = "C08" -> C08(e)
+                [] Prop = "C08" -> (IF e.op = "builder" THEN C08B(e) ELSE C08(e))
                 [] Prop = "C12" -> C12(e)
                 [] Prop = "C15" -> C15(e)
 Inv == ph = 0 \/ (IF i = 0 THEN (Prop # "C07" \/ C07Order = "ok" \/ PrintT("FAIL 0 " \o C07Order))
